@@ -8,41 +8,94 @@ const TYPES: [&str; 12] = [
     "i8", "u8", "i16", "u16", "i32", "u32", "i64", "u64", "i128", "u128", "isize", "usize",
 ];
 
-fn ty_bounds(ty: &str) -> (i128, i128) {
+/// (is signed, largest magnitude generated) — for signed types the minimum is excluded, as the property says
+fn ty_info(ty: &str) -> (bool, u128) {
     match ty {
-        "i8" => (i8::MIN as i128, i8::MAX as i128),
-        "u8" => (0, u8::MAX as i128),
-        "i16" => (i16::MIN as i128, i16::MAX as i128),
-        "u16" => (0, u16::MAX as i128),
-        "i32" => (i32::MIN as i128, i32::MAX as i128),
-        "u32" => (0, u32::MAX as i128),
-        "i64" | "isize" => (i64::MIN as i128, i64::MAX as i128),
-        "u64" | "usize" => (0, u64::MAX as i128),
-        "i128" => (i128::MIN, i128::MAX),
-        // u128 operands are generated below 2^127 so that they parse as i128 in this harness
-        "u128" => (0, i128::MAX),
+        "i8" => (true, i8::MAX as u128),
+        "u8" => (false, u8::MAX as u128),
+        "i16" => (true, i16::MAX as u128),
+        "u16" => (false, u16::MAX as u128),
+        "i32" => (true, i32::MAX as u128),
+        "u32" => (false, u32::MAX as u128),
+        "i64" | "isize" => (true, i64::MAX as u128),
+        "u64" | "usize" => (false, u64::MAX as u128),
+        "i128" => (true, i128::MAX as u128),
+        "u128" => (false, u128::MAX),
         _ => unreachable!(),
     }
 }
+fn ty_bits(ty: &str) -> u32 {
+    match ty {
+        "i8" | "u8" => 8,
+        "i16" | "u16" => 16,
+        "i32" | "u32" => 32,
+        "i128" | "u128" => 128,
+        _ => 64,
+    }
+}
 
+/// Operands travel as decimal strings and are parsed by the type under test itself, so every value of every
+/// type (u128 above 2^127 included) can be expressed.
 macro_rules! dispatch2 {
-    ($f:ident, $ty:expr, $a:expr, $b:expr) => {
+    ($f:ident, $ty:expr, $a:expr, $b:expr) => {{
+        macro_rules! go {
+            ($t:ty) => {
+                match ($a.parse::<$t>(), $b.parse::<$t>()) {
+                    (Ok(x), Ok(y)) => catch(|| $f(x, y).to_string()),
+                    _ => Ok("INVALID".to_string()),
+                }
+            };
+        }
         match $ty {
-            "i8" => catch(|| $f($a as i8, $b as i8).to_string()),
-            "u8" => catch(|| $f($a as u8, $b as u8).to_string()),
-            "i16" => catch(|| $f($a as i16, $b as i16).to_string()),
-            "u16" => catch(|| $f($a as u16, $b as u16).to_string()),
-            "i32" => catch(|| $f($a as i32, $b as i32).to_string()),
-            "u32" => catch(|| $f($a as u32, $b as u32).to_string()),
-            "i64" => catch(|| $f($a as i64, $b as i64).to_string()),
-            "u64" => catch(|| $f($a as u64, $b as u64).to_string()),
-            "i128" => catch(|| $f($a as i128, $b as i128).to_string()),
-            "u128" => catch(|| $f($a as u128, $b as u128).to_string()),
-            "isize" => catch(|| $f($a as isize, $b as isize).to_string()),
-            "usize" => catch(|| $f($a as usize, $b as usize).to_string()),
+            "i8" => go!(i8),
+            "u8" => go!(u8),
+            "i16" => go!(i16),
+            "u16" => go!(u16),
+            "i32" => go!(i32),
+            "u32" => go!(u32),
+            "i64" => go!(i64),
+            "u64" => go!(u64),
+            "i128" => go!(i128),
+            "u128" => go!(u128),
+            "isize" => go!(isize),
+            "usize" => go!(usize),
             _ => Err("bad-type".to_string()),
         }
-    };
+    }};
+}
+
+/// magnitude of a decimal token (sign dropped); None if it does not fit u128
+fn magnitude_of(tok: &str) -> Option<u128> {
+    tok.trim_start_matches('-').parse::<u128>().ok()
+}
+fn gcd_u128(mut a: u128, mut b: u128) -> u128 {
+    while b != 0 {
+        let t = a % b;
+        a = b;
+        b = t;
+    }
+    a
+}
+/// Independent oracle for gcd / lcm inside the property's domain (operands representable, not the signed minimum,
+/// result representable, not both zero for lcm): brute arithmetic on u128 magnitudes.
+fn gcdlcm_oracle(op: &str, ty: &str, a: &str, b: &str) -> Option<String> {
+    let (_, hi) = ty_info(ty);
+    let (ma, mb) = (magnitude_of(a)?, magnitude_of(b)?);
+    if ma > hi || mb > hi {
+        return None;
+    }
+    let g = gcd_u128(ma, mb);
+    if op == "gcd" {
+        return Some(g.to_string());
+    }
+    if g == 0 {
+        return None;
+    }
+    let l = (ma / g).checked_mul(mb)?;
+    if l > hi {
+        return None;
+    }
+    Some(l.to_string())
 }
 
 fn unwrap_res(r: Result<String, String>) -> String {
@@ -68,10 +121,30 @@ fn run_case(line: &str) -> String {
         Some((o, t)) => (o, t),
         None => (toks[0], ""),
     };
-    let nums: Vec<i128> = toks[1..].iter().map(|t| t.parse::<i128>().unwrap()).collect();
+    if op == "gcd" || op == "lcm" {
+        if toks.len() != 3 || !TYPES.contains(&ty) {
+            return out1("INVALID");
+        }
+        let raw = if op == "gcd" {
+            unwrap_res(dispatch2!(gcd, ty, toks[1], toks[2]))
+        } else {
+            unwrap_res(dispatch2!(lcm, ty, toks[1], toks[2]))
+        };
+        if let Some(exp) = gcdlcm_oracle(op, ty, toks[1], toks[2]) {
+            if raw != "INVALID" && raw != exp {
+                return out2(&raw, &format!("{}_oracle-expects_{}", raw, exp));
+            }
+        }
+        return out1(&raw);
+    }
+    let mut nums: Vec<i128> = Vec::new();
+    for t in &toks[1..] {
+        match t.parse::<i64>() {
+            Ok(z) => nums.push(z as i128),
+            Err(_) => return out1("INVALID"),
+        }
+    }
     match op {
-        "gcd" => out1(&unwrap_res(dispatch2!(gcd, ty, nums[0], nums[1]))),
-        "lcm" => out1(&unwrap_res(dispatch2!(lcm, ty, nums[0], nums[1]))),
         "egcd" => {
             let (a, b, c) = (nums[0] as i64, nums[1] as i64, nums[2] as i64);
             match catch(|| egcd(a, b, c)) {
